@@ -340,6 +340,23 @@ def check_dimension(F, run):
                   "From<DimensionError> does not map every variant to the IVPError variant of the same name (mapped: %s of %s)" % (sorted(seen), sorted(allv)))
 
 
+def is_user_error_wrapper(a):
+    """`IVPError::UserError`, or a closure `|e| IVPError::UserError(e)` / `|e| IVPStatus::Failure(IVPError::UserError(e))`: the user's error is kept."""
+    if is_path(a, "IVPError::UserError"):
+        return True
+    if a.get("k") != "Closure" or len(a.get("params", [])) != 1 or a["params"][0].get("k") != "Bind":
+        return False
+    x = a["params"][0]["id"]
+    e = peel(a["body"])
+    for _ in range(2):
+        if e.get("k") == "Call" and len(e.get("args", [])) == 1 and (callee(e) or "").endswith(("IVPStatus::Failure", "IVPError::UserError")):
+            last = (callee(e) or "").endswith("IVPError::UserError")
+            e = peel(e["args"][0])
+            if last:
+                return e.get("k") == "Local" and e.get("id") == x
+    return False
+
+
 def check_user_errors(F, run):
     n_calls = 0
     n_g = 0
@@ -368,7 +385,7 @@ def check_user_errors(F, run):
                 if p.get("k") == "Try" and p["e"] is cur:
                     ok = True
                     break
-                if p.get("k") == "MCall" and p["name"] == "map_err" and p["recv"] is cur and p["args"] and is_path(p["args"][0], "IVPError::UserError"):
+                if p.get("k") == "MCall" and p["name"] == "map_err" and p["recv"] is cur and p["args"] and is_user_error_wrapper(p["args"][0]):
                     cur = p
                     i -= 1
                     continue
